@@ -47,6 +47,9 @@ struct RCase {
 	/// role of the wallet that refreshes
 	sender_side: bool,
 	others: u32,
+	/// an OLDER pending transaction with a far later cutoff exists (cutoffs not monotone in creation order)
+	#[serde(default)]
+	older_far: bool,
 }
 
 fn base_world(dir: &str) {
@@ -181,6 +184,15 @@ fn run_rcase_inner(w: &World, c: &RCase) -> Result<String, (String, String)> {
 	make_others(w, c.others);
 	let h0 = w.node.height();
 	let before_create_a = a.outputs();
+	let mut older: Option<uuid::Uuid> = None;
+	if c.older_far {
+		let mut fa = default_args(2 * G);
+		fa.ttl_blocks = Some(40);
+		let f1 = a.init_send(fa).unwrap();
+		a.lock(&f1).unwrap();
+		let _ = b.receive(&f1, None).unwrap();
+		older = Some(f1.id);
+	}
 	let mut args = default_args(5 * G);
 	args.ttl_blocks = c.ttl_blocks;
 	let s1 = a.init_send(args).unwrap();
@@ -195,7 +207,10 @@ fn run_rcase_inner(w: &World, c: &RCase) -> Result<String, (String, String)> {
 	}
 	let tip = w.node.height();
 	let t = if c.sender_side { a } else { b };
-	let slots = vec![s1.id, ctl.id];
+	let mut slots = vec![s1.id, ctl.id];
+	if let Some(o) = older {
+		slots.push(o);
+	}
 	let before = view(t, &slots);
 	let res = catch(|| t.refresh());
 	match res {
@@ -211,6 +226,12 @@ fn run_rcase_inner(w: &World, c: &RCase) -> Result<String, (String, String)> {
 	let control = entries.iter().find(|e| e.tx_slate_id == Some(ctl.id)).unwrap();
 	let side = if c.sender_side { "sender" } else { "recipient" };
 	let is_cancelled = matches!(target.tx_type, TxLogEntryType::TxSentCancelled | TxLogEntryType::TxReceivedCancelled);
+	if let Some(oid) = older {
+		let o = entries.iter().find(|e| e.tx_slate_id == Some(oid)).unwrap();
+		if matches!(o.tx_type, TxLogEntryType::TxSentCancelled | TxLogEntryType::TxReceivedCancelled) {
+			return Err((format!("C17/refresh/unexpired-cancelled/older/{}", side), "an older pending transaction whose cutoff lies far ahead was cancelled by refresh".to_owned()));
+		}
+	}
 	if matches!(control.tx_type, TxLogEntryType::TxSentCancelled | TxLogEntryType::TxReceivedCancelled) {
 		return Err((format!("C17/refresh/no-cutoff-tx-cancelled/{}", side), "a pending transaction without a cutoff was cancelled by refresh".to_owned()));
 	}
@@ -298,7 +319,9 @@ pub fn run(_args: &[String]) -> i32 {
 		for mined in 0u64..=4 {
 			for sender_side in [true, false].iter() {
 				for others in (if thorough { vec![0u32, 1, 2] } else { vec![0u32, 2] }).iter() {
-					rcases.push(RCase { ttl_blocks: *ttl, mined, sender_side: *sender_side, others: *others });
+					for older_far in [false, true].iter() {
+						rcases.push(RCase { ttl_blocks: *ttl, mined, sender_side: *sender_side, others: *others, older_far: *older_far });
+					}
 				}
 			}
 		}
